@@ -15,9 +15,13 @@ FRAGMENTS = [
     "{{PAGENAME}}", "{{#ifeq:a|a|{{loop}}|n}}", "{{a|{{#invoke:bad|main}}}}", "{{list}}", "{{#unknownfn:x}}",
     "{{a|{{m1}}}}", "{{subst:a|s}}", "{{#invoke:ppraw|main|boom}}", "{{#invoke:ppcall|main|boom}}",
     "{{#invoke:etcall|main|boom}}", "{{#invoke:ppraw|main|a{{!}}x}}", "{{#invoke:ppcall|main|inv{{!}}boom}}", "{{#tag:ref|x}}", "\n== H ==\n", "\n* li {{a|i}}\n",
+    # computed argument names (expanding to a positive integer, to zero, to a word, to nothing)
+    "{{a|{{#expr:1}}=x}}", "{{a|{{{n|1}}}=x}}", "{{b|{{lc:X}}=q|{{#expr:1+1}}=r}}", "{{a|{{#if:x|2}}=v|{{#if:|2}}=w}}",
+    "{{a|{{#expr:0}}=z}}", "{{a|{{m1}}=v}}", "{{a|0{{#expr:1}}=v}}", "{{#invoke:echo|main|{{#expr:1}}=x|{{lc:K}}=y}}",
+    "{{a|{{a|1}}=x}}", "{{b|{{{1|3}}}=p}}",
 ]
 FLAT_SAFE = ["{{#invoke:ppraw|main|boom}}", "{{#invoke:ppcall|main|boom}}", "{{#invoke:etcall|main|boom}}", "{{a|x}}", "{{b|p|x=q}}", "{{#if:x|y|z}}", "{{#invoke:echo|main|a}}", "{{lc:ABC}}", "{{missing}}",
-             "{{#invoke:bad|main}}", "{{inv|q}}"]
+             "{{#invoke:bad|main}}", "{{inv|q}}", "{{a|{{#expr:1}}=x}}", "{{b|{{lc:X}}=q}}", "{{a|{{{n|1}}}=x}}"]
 
 
 def gen_case(rng, heavy=False):
@@ -38,7 +42,7 @@ def gen_case(rng, heavy=False):
 
 
 def run(run):
-    run.rule = ("pages built from a 40-fragment catalogue (templates, missing templates, loops, #invoke of good/raising/"
+    run.rule = ("pages built from a 55-fragment catalogue (templates, computed argument names, missing templates, loops, #invoke of good/raising/"
                 "syntactically broken/absent modules, frame:preprocess and expandTemplate re-entry, bad parser-function input, "
                 "links, nowiki, headings) x option sets (pre_expand, expand_parserfns, expand_invoke, hooks, selection) x repeat "
                 "counts (1-3; 100/300 for a subset) without start_page; non-trivial = page contains at least one call; "
